@@ -6,6 +6,7 @@ Driver for C26.  State = the model worlds under the two roots (gRPC: `g`, UI eva
 from every `world` line, plus what the last response told the caller.
 
 ids: `p<n>` point, `w<n>` path, `x0` the invalid ID; feature = `id|k=v,k=v|ref,ref` (`-` = empty)
+  kind ro|rw                      => ro|rw        (read-only worlds, `ingest.ReadOnlyWorlds`, or mutable ones)
   base [feature …]                => [feature …]
   grpc <change> / ui <change>     => err | ids [id …] | plain | panic | …
   grpc-plain / ui-plain           => plain
@@ -135,6 +136,7 @@ def parseWholeChange (ws : List String) : Option Change :=
   | _ => none
 
 structure St where
+  ro : Bool := false
   g : World := []
   u : World := []
   gTold : Option World := none
@@ -146,8 +148,8 @@ def renderResp : Resp → String
   | .ids xs => renderIds xs
 
 /-- the verdict for a change request: predicate first, then the comparison with the model -/
-def judgeChange (w : World) (c : Change) (model : World × Resp) (impl : String) : Verdict × Option World :=
-  let spec := specApply w c
+def judgeChange (ro : Bool) (w : World) (c : Change) (model : World × Resp) (impl : String) : Verdict × Option World :=
+  let spec := specApplyR ro w c
   let m := renderResp model.2
   if impl == "err" then
     if spec.isNone then (if impl == m then .ok else .diff m, none)
@@ -159,7 +161,7 @@ def judgeChange (w : World) (c : Change) (model : World × Resp) (impl : String)
       match (parseBracket (sdrop impl 4)).bind (·.mapM parseId) with
       | none => (.propfail "ids-are-the-modified-features", some ws)
       | some xs =>
-        if idSet xs == idSet (targets c) then (if impl == m then .ok else .diff m, some ws)
+        if idSet xs == idSet (if ro then [] else targets c) then (if impl == m then .ok else .diff m, some ws)
         else (.propfail "ids-are-the-modified-features", some ws)
   else (.propfail "error-iff-apply-failed", none)
 
@@ -167,33 +169,37 @@ def plainVerdict (impl model : String) : Verdict := if impl == model then .ok el
 
 def step (st : St) (op impl : String) : St × Verdict :=
   match words op with
+  | ["kind", k] =>
+    if k == "ro" then ({ st with ro := true }, plainVerdict impl k)
+    else if k == "rw" then ({ st with ro := false }, plainVerdict impl k)
+    else (st, .bad)
   | "base" :: _ =>
     match parseWorld (sdrop op 5) with
-    | some w => ({ g := w, u := w }, plainVerdict impl (renderWorld w))
+    | some w => ({ st with g := w, u := w, gTold := none, uTold := none }, plainVerdict impl (renderWorld w))
     | none => (st, .bad)
   | "grpc" :: ws =>
     match parseWholeChange ws with
     | none => (st, .bad)
     | some c =>
-      let m := grpcEvaluate true st.g (.change c)
-      let (v, told) := judgeChange st.g c m impl
+      let m := grpcEvaluate true st.ro st.g (.change c)
+      let (v, told) := judgeChange st.ro st.g c m impl
       ({ st with g := m.1, gTold := told }, v)
   | "ui" :: ws =>
     match parseWholeChange ws with
     | none => (st, .bad)
     | some c =>
-      let m := uiEvaluate st.u (.change c)
-      let (v, told) := judgeChange st.u c m impl
+      let m := uiEvaluate st.ro st.u (.change c)
+      let (v, told) := judgeChange st.ro st.u c m impl
       ({ st with u := m.1, uTold := told }, v)
-  | ["grpc-plain"] => ({ st with gTold := none }, plainVerdict impl (renderResp (grpcEvaluate true st.g .plain).2))
-  | ["ui-plain"] => ({ st with uTold := none }, plainVerdict impl (renderResp (uiEvaluate st.u .plain).2))
-  | ["grpc-evalerr"] => ({ st with gTold := none }, plainVerdict impl (renderResp (grpcEvaluate true st.g .error).2))
-  | ["ui-evalerr"] => ({ st with uTold := none }, plainVerdict impl (renderResp (uiEvaluate st.u .error).2))
+  | ["grpc-plain"] => ({ st with gTold := none }, plainVerdict impl (renderResp (grpcEvaluate true st.ro st.g .plain).2))
+  | ["ui-plain"] => ({ st with uTold := none }, plainVerdict impl (renderResp (uiEvaluate st.ro st.u .plain).2))
+  | ["grpc-evalerr"] => ({ st with gTold := none }, plainVerdict impl (renderResp (grpcEvaluate true st.ro st.g .error).2))
+  | ["ui-evalerr"] => ({ st with uTold := none }, plainVerdict impl (renderResp (uiEvaluate st.ro st.u .error).2))
   | "grpc-badver" :: ws =>
     match parseWholeChange ws with
     | none => (st, .bad)
     | some c =>
-      let m := grpcEvaluate false st.g (.change c)
+      let m := grpcEvaluate false st.ro st.g (.change c)
       ({ st with g := m.1, gTold := none }, plainVerdict impl (renderResp m.2))
   | ["world", which] =>
     if which != "g" && which != "u" then (st, .bad) else
